@@ -8,8 +8,9 @@ DRV = S.DRV
 CRATE = S.CRATE
 
 RULE = ("alloc: the harness binary installs divan::AllocProfiler as #[global_allocator]; generator, counter closures, "
-        "benchmarked closure and the Drop impls of the instrumented types perform scripted real allocations "
-        "(Vec<u8>::with_capacity / drop / reserve_exact / shrink_to, leftovers leaked), scripts drawn at random per "
+        "benchmarked closure and the Drop impls of the instrumented types perform scripted real allocations through every "
+        "GlobalAlloc entry point (alloc: Vec<u8>::with_capacity; alloc_zeroed: vec![0u8; n]; realloc grow/shrink: "
+        "reserve_exact / shrink_to; dealloc: drop; leftovers leaked), scripts drawn at random per "
         "case over all entry points x 16 shapes x sizes x counts x threads x {bench,test}; the per-sample alloc_infos "
         "of the RunDump must equal the model's snapshot (tally of the calls' operations only) and the per-thread event "
         "logs (clock reads, clear, snapshot, generator/counter/call/drop events) must equal the model's; streams with "
@@ -22,7 +23,8 @@ RULE = ("alloc: the harness binary installs divan::AllocProfiler as #[global_all
         "figures must be exactly those operations. e2e-macro-wrappers: the real-macro binary hx-sample-e2e (one process per "
         "case, Divan::from_args().main(), TSC timer on the virtual clock) with a #[divan::bench] function for every wrapper arm "
         "of the attribute macro (Rust ABI, extern \"C\", extern \"system\", generic extern \"C\", generic Rust, args, Bencher, "
-        "extern \"C\" Bencher, Bencher+args), outputs owning a Box: per-thread event logs must equal the model's for "
+        "extern \"C\" Bencher, Bencher+args; args of a Copy type whose hand-written Clone logs and allocates, by value and by "
+        "reference: the macro glue must not run it), outputs owning a Box: per-thread event logs must equal the model's for "
         "bench/bench(f) with a sized output with destructor, and the allocation rows of the printed table must be exactly the "
         "operations of the calls (alloc, no dealloc). Non-trivial = at least one sample reports non-zero figures (scripted stream) / at least one call "
         "(other streams).")
